@@ -11,6 +11,8 @@ func main() {
 	switch os.Args[1] {
 	case "registry":
 		registryMain(os.Args[2:])
+	case "encrypt":
+		encryptMain(os.Args[2:])
 	case "ce":
 		ceMain(os.Args[2:])
 	case "json":
